@@ -37,7 +37,7 @@ ASSUMPTIONS = [
     "dictionary faults use concrete numbers (the fault position and kind are what is enumerated); real json, real files",
 ]
 BOUNDS = {"quick": {"census sample": "~25 shapes per borrowed property", "dictionary faults": "exhaustive single faults on 2 base contracts x 2 representations x 3 entry points"}, "thorough": {"census sample": "~250 shapes per borrowed property", "dictionary faults": "same, 6 base contracts"}}
-OPTS = {"quick": {"tier_budget_s": 240, "max_paths": 1500, "job_budget_s": 40, "witness_rate": 0.1}, "thorough": {"tier_budget_s": 2400, "max_paths": 20000, "job_budget_s": 300, "witness_rate": 0.2}}
+OPTS = {"quick": {"tier_budget_s": 480, "max_paths": 1500, "job_budget_s": 40, "witness_rate": 0.1}, "thorough": {"tier_budget_s": 2400, "max_paths": 20000, "job_budget_s": 300, "witness_rate": 0.2}}
 REACH = {"quick": ["OK", "VE", "IAE", "SYNTAX", "CONVEX", "CFE", "census", "adversarial", "dict-fault", "file-fault", "rejected"]}
 BORROW = ["C01", "C02", "C03", "C04", "C07", "C08", "C09", "C10", "C11", "C12", "C15", "C16", "C17"]
 DOCUMENTED = {"OK", "VE", "IAE", "SYNTAX", "CONVEX", "CFE"}
@@ -199,6 +199,8 @@ def jobs(tier, seed):
         for kind in ("no-type", "no-name", "no-data", "bad-type", "entry-not-dict", "top-not-list", "data-none"):
             for machine in (True, False):
                 out.append({"kind": "file-fault", "base": bi, "machine": machine, "fault": kind})
+    # the concrete fault enumeration is cheap: run it first so that a slow machine cuts the census, not this part
+    out.sort(key=lambda jb: 0 if jb["kind"] in ("dict-fault", "file-fault") else 1)
     return out
 
 
